@@ -40,6 +40,30 @@ fn main() {
     }
     // expansions of malformed input may panic by design of the check: keep stderr quiet
     std::panic::set_hook(Box::new(|_| {}));
+    if args[1] == "check" && args[2] != "C15" {
+        // C15 has its own watchdog (a stall is its subject); everywhere else an expansion that stalls
+        // for 3 minutes ends the check as inconclusive instead of blocking it for ever
+        let what = args[2].clone();
+        std::thread::spawn(move || {
+            use std::sync::atomic::Ordering;
+            let mut last = jvl::c15::HEARTBEAT.load(Ordering::Relaxed);
+            let mut idle = 0;
+            loop {
+                std::thread::sleep(std::time::Duration::from_secs(10));
+                let now = jvl::c15::HEARTBEAT.load(Ordering::Relaxed);
+                if now == last {
+                    idle += 1;
+                    if idle >= 18 {
+                        eprintln!("{}: no expansion finished for 180 s - the parser or generator seems to be stuck on an input (inconclusive)", what);
+                        std::process::exit(2);
+                    }
+                } else {
+                    idle = 0;
+                    last = now;
+                }
+            }
+        });
+    }
     let code = match args[1].as_str() {
         "check" => match args[2].as_str() {
             "C14" => c14::run(&tier, seed),
